@@ -10,7 +10,7 @@ from fractions import Fraction as Fr
 
 from mc.engine import hbfs, par, sched
 from mc.engine.report import Violation
-from mc.engine.seams import reset_library
+from mc.engine.seams import reset_library, ambient_logger
 
 import ECAgent.Core as Core
 import ECAgent.Batching as Batching
@@ -48,6 +48,7 @@ META = {
 class GModel(Core.Model):
     def __init__(self, a, b=0):
         super().__init__(seed=1)
+        ambient_logger(self)
         self.a, self.b = a, b
         self.complete()
 
@@ -169,6 +170,7 @@ class StepModel(Core.Model):
 
     def __init__(self, a, life=10 ** 6):
         super().__init__(seed=1)
+        ambient_logger(self)
         self.a = a
         life_ = life
 
@@ -220,6 +222,7 @@ class KwModel(Core.Model):
 
     def __init__(self, **kw):
         super().__init__()
+        ambient_logger(self)
         self.kw = dict(kw)
         for k, v in kw.items():
             setattr(self, k, v)
@@ -255,6 +258,7 @@ class TallyModel(Core.Model):
 
     def __init__(self, a):
         super().__init__(seed=a)
+        ambient_logger(self)
         self.a = a
         self.draws = []
         TallyModel.tally = 0
@@ -522,15 +526,21 @@ def chunk_fn(ctx, chunk):
     ctx.leg('worker_processes', forks=cache.forks)
 
 
+# the cheap legs run once more under the runner's ambient configurations (python -O, other logger levels)
+AMBIENT_LEGS = True
+
+
 def run(ctx):
     ser = list(serial_cases(ctx.tier))
     sc = list(sched_cases())
     pr = list(pool_reuse_cases())
     lim = list(limit_cases()) + [{'leg': 'reused_list', 'procs': 1}] + list(traits_cases())
     allc = lim + ser + sc
+    if ctx.small:      # reduced: limits, traits, the 2- and 3-combination serial tables, no schedules
+        allc = lim + [c for c in ser if c['shape'] in ('2', '3') and c['reps'] == 1]
     size = max(1, len(allc) // (ctx.procs * 4))
     par.pmap(ctx, chunk_fn, [allc[i:i + size] for i in range(0, len(allc), size)], procs=ctx.procs)
-    if not ctx.violations:
+    if not ctx.violations and not ctx.small:
         # real pools fork: run these from the parent, one after the other (deterministic: staleness, not timing)
         chunk_fn(ctx, pr + [{'leg': 'reused_list', 'procs': 2}])
         ctx.leg('pool_reuse_real_pool', sequences=len(pr))
